@@ -136,6 +136,9 @@ type c20Task struct {
 	readyC chan struct{}
 	once   sync.Once
 	abort  chan struct{}
+	// terminate is bound when the task is built, before Serve runs, exactly as BuildTasks hands
+	// s.t.terminate to every Advertiser: what the signal task records must be visible through it
+	terminate func() bool
 }
 
 type c20Err struct{ code int64 }
@@ -174,7 +177,7 @@ func (t *c20Task) Run(ctx context.Context) error {
 			t.l.add(c20Ev{K: "ret", I: t.id, R: t.sc.EndErr}, func(e *c20Ev) { e.Done = ctx.Err() != nil })
 			return c20ErrOf(t.sc.EndErr)
 		case <-ctx.Done():
-			t.l.add(c20Ev{K: "see", I: t.id}, func(e *c20Ev) { e.B = t.l.srv.t.terminate() })
+			t.l.add(c20Ev{K: "see", I: t.id}, func(e *c20Ev) { e.B = t.terminate() })
 			if t.sc.StopDelay > 0 {
 				select {
 				case <-time.After(time.Duration(t.sc.StopDelay)):
@@ -217,7 +220,7 @@ func c20Serve(t *testing.T, scripts []c20Script, sigs []c20Sig, notifyFail strin
 		var tasks []Task
 		var vts []*c20Task
 		for i, sc := range scripts {
-			vt := &c20Task{id: i, sc: sc, l: l, readyC: make(chan struct{}), abort: abort}
+			vt := &c20Task{id: i, sc: sc, l: l, readyC: make(chan struct{}), abort: abort, terminate: srv.t.terminate}
 			vts = append(vts, vt)
 			tasks = append(tasks, vt)
 		}
